@@ -1527,8 +1527,10 @@ impl KotoVm {
 
         let result_value = match lhs {
             List(list) => {
-                let index = signed_index_to_unsigned(index, list.data().len());
-                list.data().get(index).cloned().unwrap_or(Null)
+                // A single borrow for the length and the access, like the map arm
+                let data = list.data();
+                let index = signed_index_to_unsigned(index, data.len());
+                data.get(index).cloned().unwrap_or(Null)
             }
             Tuple(tuple) => {
                 let index = signed_index_to_unsigned(index, tuple.len());
@@ -1632,14 +1634,14 @@ impl KotoVm {
 
         let result = match self.clone_register(value) {
             List(list) => {
-                let index = signed_index_to_unsigned(index, list.data().len());
+                // A single borrow for the length and the slice, like the map arm
+                let data = list.data();
+                let index = signed_index_to_unsigned(index, data.len());
                 if is_slice_to {
-                    list.data()
-                        .get(..index)
+                    data.get(..index)
                         .map_or(Null, |entries| List(KList::from_slice(entries)))
                 } else {
-                    list.data()
-                        .get(index..)
+                    data.get(index..)
                         .map_or(Null, |entries| List(KList::from_slice(entries)))
                 }
             }
